@@ -51,6 +51,10 @@ pub enum FaultKind {
 }
 
 /// the error kinds an `Error` fault cycles through (by I/O call index)
+/// more reader calls than any terminating use can make (a one-byte-per-read policy over a 4 MiB table makes ~4e6):
+/// beyond base + 64 per stream byte the parser is spinning
+const CALL_BUDGET_BASE: u64 = 20_000_000;
+
 const ERROR_KINDS: [ErrorKind; 5] = [ErrorKind::Other, ErrorKind::UnexpectedEof, ErrorKind::WouldBlock, ErrorKind::TimedOut, ErrorKind::InvalidData];
 
 #[derive(Clone, Copy, Debug)]
@@ -73,6 +77,9 @@ pub struct Policy {
 
 pub struct IoState {
     pub data: Rc<Vec<u8>>,
+    /// a hole of zeros spliced into the stream at `at` with length `len`: the logical stream is
+    /// data[..at] ++ zeros(len) ++ data[at..] (multi-GiB streams without the memory)
+    pub hole: Option<(u64, u64)>,
     pub pos: u64,
     pub calls: u32,
     pub api: u32,
@@ -102,6 +109,7 @@ pub struct MonReader {
 pub fn new_reader(data: Rc<Vec<u8>>, policy: Policy, seed: u64) -> (MonReader, Handle) {
     let st = Rc::new(RefCell::new(IoState {
         data,
+        hole: None,
         pos: 0,
         calls: 0,
         api: 0,
@@ -122,6 +130,13 @@ impl Handle {
     pub fn set_api(&self, api: u32) {
         self.0.borrow_mut().api = api;
     }
+    /// where the stream stands when it is handed to the parser (not logged as an I/O call)
+    pub fn set_pos(&self, pos: u64) {
+        self.0.borrow_mut().pos = pos;
+    }
+    pub fn set_hole(&self, at: u64, len: u64) {
+        self.0.borrow_mut().hole = Some((at, len));
+    }
     pub fn calls(&self) -> u32 {
         self.0.borrow().calls
     }
@@ -141,6 +156,10 @@ impl Handle {
 }
 
 impl IoState {
+    /// logical length of the stream
+    pub fn len(&self) -> u64 {
+        self.data.len() as u64 + self.hole.map(|h| h.1).unwrap_or(0)
+    }
     fn push(&mut self, ev: IoEvent) {
         if self.log.len() < LOG_CAP {
             self.log.push(ev);
@@ -164,6 +183,10 @@ impl Read for MonReader {
         let mut s = self.st.borrow_mut();
         let call = s.calls;
         s.calls += 1;
+        if s.calls as u64 > CALL_BUDGET_BASE + 64 * s.data.len() as u64 {
+            drop(s);
+            panic!("{} ({} calls on a {}-byte stream)", crate::monitor::panic::IO_BUDGET_MSG, call, self.st.borrow().data.len());
+        }
         let pos = s.pos;
         let api = s.api;
         let req = buf.len() as u64;
@@ -198,9 +221,17 @@ impl Read for MonReader {
             }
         }
         s.consecutive_interrupts = 0;
-        let len = s.data.len() as u64;
-        let avail = if pos >= len { 0 } else { (len - pos) as usize };
-        let mut n = buf.len().min(avail);
+        let len = s.len();
+        let avail = if pos >= len { 0u64 } else { len - pos };
+        let mut n = (buf.len() as u64).min(avail) as usize;
+        // a read never crosses a border of the hole (a legal short read)
+        if let Some((at, hl)) = s.hole {
+            for border in [at, at + hl] {
+                if pos < border && pos + n as u64 > border {
+                    n = (border - pos) as usize;
+                }
+            }
+        }
         if s.policy.max_chunk > 0 && n > 1 {
             let mc = s.policy.max_chunk;
             let k = 1 + s.rng.usize_below(mc);
@@ -210,9 +241,18 @@ impl Read for MonReader {
             }
         }
         if n > 0 {
-            let p = pos as usize;
             let data = s.data.clone();
-            buf[..n].copy_from_slice(&data[p..p + n]);
+            match s.hole {
+                Some((at, hl)) if pos >= at && pos < at + hl => buf[..n].fill(0),
+                Some((at, hl)) if pos >= at + hl => {
+                    let p = (pos - hl) as usize;
+                    buf[..n].copy_from_slice(&data[p..p + n]);
+                }
+                _ => {
+                    let p = pos as usize;
+                    buf[..n].copy_from_slice(&data[p..p + n]);
+                }
+            }
         }
         s.pos = pos + n as u64;
         s.push(IoEvent { call, api, kind: IoKind::Read, pos, req, outcome: Outcome::Ok(n as u64) });
@@ -225,9 +265,13 @@ impl Seek for MonReader {
         let mut s = self.st.borrow_mut();
         let call = s.calls;
         s.calls += 1;
+        if s.calls as u64 > CALL_BUDGET_BASE + 64 * s.data.len() as u64 {
+            drop(s);
+            panic!("{} ({} calls on a {}-byte stream)", crate::monitor::panic::IO_BUDGET_MSG, call, self.st.borrow().data.len());
+        }
         let pos = s.pos;
         let api = s.api;
-        let len = s.data.len() as u64;
+        let len = s.len();
         let target: Option<u64> = match from {
             SeekFrom::Start(n) => Some(n),
             SeekFrom::End(off) => (len as i128 + off as i128).try_into().ok(),
